@@ -7,6 +7,7 @@ import (
 	"fmt"
 	"hash/fnv"
 	"sort"
+	"sync"
 	"time"
 
 	"verif/sim/tape"
@@ -51,6 +52,7 @@ type Ctx struct {
 	// Trace makes Logf keep the text (replay / sample runs).
 	Trace bool
 
+	cmu        sync.Mutex // guards the counters (faults, probes, states)
 	Step       int
 	start      time.Time
 	h          uint64
@@ -92,14 +94,28 @@ func (c *Ctx) Logf(format string, args ...any) {
 	}
 }
 
-// Fault counts a fault that actually fired.
-func (c *Ctx) Fault(kind string) { c.faults[kind]++; c.nontrivial = true }
+// Fault counts a fault that actually fired. (The counters may be touched from handler goroutines of the code
+// under test as well as from the root goroutine, hence the lock; Logf and Failf belong to the root only.)
+func (c *Ctx) Fault(kind string) {
+	c.cmu.Lock()
+	c.faults[kind]++
+	c.nontrivial = true
+	c.cmu.Unlock()
+}
 
 // Probe counts a rare-branch probe.
-func (c *Ctx) Probe(name string) { c.probes[name]++ }
+func (c *Ctx) Probe(name string) {
+	c.cmu.Lock()
+	c.probes[name]++
+	c.cmu.Unlock()
+}
 
 // State records an abstract state visited.
-func (c *Ctx) State(s string) { c.states[s] = struct{}{} }
+func (c *Ctx) State(s string) {
+	c.cmu.Lock()
+	c.states[s] = struct{}{}
+	c.cmu.Unlock()
+}
 
 // Knob records a swarm knob of this run.
 func (c *Ctx) Knob(k string, v any) { c.knobs[k] = v }
